@@ -125,6 +125,10 @@ def shape(e, roles=None, depth=20):
         if e.fn:
             if e.fn in TRANSPARENT_CALLS and TRANSPARENT_CALLS[e.fn] == "deref" or e.fn in IDENTITY_FNS:
                 return "\u03bb(p1)"  # a reference conversion used as a function value: the identity on the value
+            if e.c.get("fn_local") and getattr(e, "owner", None) is not None:
+                suffix = field_getter(e.owner.facts, e.fn)
+                if suffix is not None:
+                    return "\u03bb(p1%s)" % suffix  # an accessor used as a function value
             lam = lambda_shape(getattr(e, "owner", None), e.fn, False, depth) if e.c.get("fn_local") else None
             return lam if lam is not None else "fn:%s" % nice(e.fn)
         if e.int is not None and e.c.get("uneval") and e.c.get("promoted") is None and getattr(e, "owner", None) is not None:
@@ -153,7 +157,7 @@ def shape(e, roles=None, depth=20):
             # `x.get_pair().0` is `x.get_first()` when the crate has both accessors
             comp = _tuple_getter_component(inner, e.idx)
             if comp is not None:
-                return "%s(%s)" % (comp, shape(inner.args[0], roles, depth - 1))
+                return _re.sub(r"\bp1\b", lambda _m: shape(inner.args[0], roles, depth - 1), comp)
         if isinstance(inner, Bin) and inner.op.endswith("WithOverflow") and e.idx == 0:
             return shape(Bin(inner.op[:-len("WithOverflow")], inner.l, inner.r, inner.lty), roles, depth)
         if isinstance(inner, Downcast) and e.idx == 0:
@@ -221,6 +225,10 @@ def shape(e, roles=None, depth=20):
             if kind == "into":
                 return inner
             return inner
+        if e.t.get("resolved_local") and len(e.args) == 1 and getattr(e, "owner", None) is not None:
+            suffix = field_getter(e.owner.facts, e.t.get("resolved") or e.t.get("callee"))
+            if suffix is not None:
+                return shape(e.args[0], roles, depth - 1) + suffix  # accessor call = field read
         cid = callee_id(e.t)
         if cid == "mem::size_of" and e.t.get("callee_args"):
             return "size_of<%s>" % short_ty(e.t["callee_args"][0])
@@ -265,6 +273,27 @@ _LAMBDA_CACHE = {}
 _GETTER_INDEX = {}
 
 
+_FIELD_GETTERS = {}
+
+
+def field_getter(facts, path):
+    """For a one-argument function of the crate whose whole body is a field projection of its argument
+    (`fn get_dst_line(&self) -> u32 { self.raw.dst_line }`): the projection as a suffix (".raw.dst_line"); None
+    otherwise. A call of such an accessor and a direct read of the field are the same value, so both print as the
+    field path (what the accessor returns is decided by the accessor table, rule R0)."""
+    key = (id(facts), path)
+    if key not in _FIELD_GETTERS:
+        out = None
+        b = facts.body(path, required=False) if path else None
+        if b is not None and b.promoted is None and b.kind in ("Fn", "AssocFn") and b.arg_count == 1 and not b.derived:
+            _FIELD_GETTERS[key] = None  # recursion guard
+            lam = _plain_lambda(b)
+            if lam and _re.match(r"^p1(\.[A-Za-z_]\w*|\.\d+)+$", lam):
+                out = lam[2:]
+        _FIELD_GETTERS[key] = out
+    return _FIELD_GETTERS[key]
+
+
 def _getter_index(facts):
     """{(impl self type, λ-shape): printed callee} for the one-argument straight-line functions of the crate."""
     key = id(facts)
@@ -306,10 +335,12 @@ def _tuple_getter_component(call, k):
     parts = _split_args(lam[len("tuple("):-1])
     if k >= len(parts):
         return None
-    m = _re.match(r"^([\w:]+)\(p1\)$", parts[k])
-    if m:
-        return m.group(1)  # the pair is itself built from the single accessors
-    return _getter_index(facts).get((b.raw.get("parent"), parts[k]))
+    # component k of the pair the accessor builds, in terms of its argument p1 (`x.get_pair().0` is what the
+    # accessor puts first: a field path, or a call of another accessor)
+    if _re.match(r"^[\w:<>]+\(p1\)$", parts[k]) or _re.match(r"^p1(\.[A-Za-z_]\w*|\.\d+)+$", parts[k]):
+        return parts[k]
+    g = _getter_index(facts).get((b.raw.get("parent"), parts[k]))
+    return "%s(p1)" % g if g else None
 
 
 def _split_args(s):
